@@ -75,6 +75,22 @@ func (x *Exec) ndCall(fr *frame, fn *ssa.Function, args []Value) Value {
 			}
 		}
 		return Agg{a.Ptr(), c64(uint64(n))}
+	case "nd_maporder":
+		// the order in which the builtin map model is ranged over is not
+		// specified by Go: a harness compares a run in insertion order with a
+		// run in reverse order (any dependence on the order shows up as a
+		// difference between the two)
+		x.Cfg.MapReverse = x.constInt(args[0], "map order") != 0
+		x.Stubs["map iteration order: insertion order and its reverse are both explored (nd_maporder)"] = true
+		return nil
+	case "nd_setrand":
+		// the harness chooses the next value of the random source itself (it forks
+		// over the values it wants explored): C.rand stays an arbitrary-value stub,
+		// the choice just moves from the solver to the harness
+		x.randQueue = append(x.randQueue, uint64(x.constInt(args[0], "random value")))
+		return nil
+	case "nd_native":
+		return smt.False
 	case "nd_alloc":
 		nm := x.constString(args[0])
 		n := x.constInt(args[1], "size")
